@@ -914,6 +914,113 @@ Proof.
 Qed.
 
 (* ================================================================== *)
+(* 5b. Batching (batch_append on): the merged message stays a slice      *)
+(* ================================================================== *)
+
+Lemma contig_last_idx l f :
+  contiguous_from f l -> l <> [] -> last_idx l = f + N.of_nat (length l) - 1.
+Proof.
+  revert f. induction l as [|a t IH]; intros f Hc Hne; [congruence|].
+  destruct Hc as [Ha Ht]. destruct t as [|b t'].
+  - unfold last_idx. cbn. lia.
+  - unfold last_idx in *. change (List.last (a :: b :: t') entry_default)
+      with (List.last (b :: t') entry_default).
+    rewrite (IH (f + 1) Ht ltac:(discriminate)). cbn [length]. lia.
+Qed.
+
+(* an append message that is a slice of log [l] anchored at (m_index, m_log_term) *)
+Definition app_wf (l : raft_log) (m : msg) : Prop :=
+  contiguous_from (m_index m + 1) (m_entries m) /\
+  from_log l (m_index m + 1) (m_entries m) /\
+  RaftLog.term l (m_index m) = Ok (SOk (m_log_term m)).
+
+(* the continuity test of try_batching, spelled out *)
+Lemma is_continuous_ents_spec m e0 et :
+  is_continuous_ents m (e0 :: et) = true ->
+  e_index e0 = (match m_entries m with [] => m_index m | _ => last_idx (m_entries m) end) + 1.
+Proof.
+  unfold is_continuous_ents, last_idx. intros H. apply N.eqb_eq in H.
+  destruct (m_entries m); lia.
+Qed.
+
+(* merging contiguous entries that pass the continuity test into a contiguous
+   message gives a contiguous message with the same anchor *)
+Lemma merge_contiguous m ents lo :
+  ents <> [] -> is_continuous_ents m ents = true ->
+  contiguous_from (m_index m + 1) (m_entries m) -> contiguous_from lo ents ->
+  lo = m_index m + 1 + N.of_nat (length (m_entries m)) /\
+  contiguous_from (m_index m + 1) (m_entries m ++ ents).
+Proof.
+  intros Hne Hc Hm He. destruct ents as [|e0 et]; [congruence|].
+  pose proof (is_continuous_ents_spec _ _ _ Hc) as Hi.
+  destruct He as [He0 Het].
+  assert (Hlo : lo = m_index m + 1 + N.of_nat (length (m_entries m))).
+  { destruct (m_entries m) as [|a t] eqn:Em; [cbn; lia|].
+    rewrite (contig_last_idx _ _ Hm ltac:(discriminate)) in Hi. cbn [length] in *. lia. }
+  split; [exact Hlo|]. apply contig_app; [exact Hm|]. rewrite <- Hlo. split; assumption.
+Qed.
+
+Definition merged (r : raft) (m : msg) (ents : list entry) : msg :=
+  m <| m_entries := m_entries m ++ ents |> <| m_commit := committed (r_log r) |>.
+
+(* try_batching_contiguous: the message try_batching rewrites keeps its anchor
+   (m_index, m_log_term), gets the current commit index, and -- if it was a
+   slice of the leader's log and the new entries are one starting at [lo] --
+   is again a slice of that log *)
+Theorem try_batching_contiguous r to msgs pr ents msgs' pr' lo :
+  try_batching r to msgs pr ents = Ok (msgs', pr', true) ->
+  contiguous_from lo ents -> from_log (r_log r) lo ents ->
+  exists pre m post, msgs = pre ++ m :: post /\ Forall (not_app_to to) pre /\
+    m_type m = MsgAppend /\ m_to m = to /\
+    msgs' = pre ++ merged r m ents :: post /\
+    m_index (merged r m ents) = m_index m /\ m_log_term (merged r m ents) = m_log_term m /\
+    m_commit (merged r m ents) = committed (r_log r) /\
+    (ents <> [] -> contiguous_from (m_index m + 1) (m_entries m) ->
+       lo = m_index m + 1 + N.of_nat (length (m_entries m)) /\
+       contiguous_from (m_index m + 1) (m_entries (merged r m ents))) /\
+    (app_wf (r_log r) m -> app_wf (r_log r) (merged r m ents)).
+Proof.
+  intros H Hc Hf.
+  destruct (try_batching_true _ _ _ _ _ _ _ H) as (pre & m & post & A & B & C & D & F & G & K).
+  exists pre, m, post. split; [exact A|]. split; [exact B|]. split; [exact C|]. split; [exact D|].
+  split; [exact F|]. split; [reflexivity|]. split; [reflexivity|]. split; [reflexivity|].
+  change (m_entries (merged r m ents)) with (m_entries m ++ ents).
+  split.
+  - intros Hne Hm. destruct (K Hne) as [Hcont _]. eapply merge_contiguous; eassumption.
+  - intros (Hm & Hfm & Ht). unfold app_wf.
+    change (m_entries (merged r m ents)) with (m_entries m ++ ents).
+    change (m_index (merged r m ents)) with (m_index m).
+    change (m_log_term (merged r m ents)) with (m_log_term m).
+    destruct ents as [|e0 et]; [rewrite app_nil_r; auto|].
+    destruct (K ltac:(discriminate)) as [Hcont _].
+    destruct (merge_contiguous m (e0 :: et) lo ltac:(discriminate) Hcont Hm Hc) as (Hlo & Hc2).
+    split; [exact Hc2|]. split; [|exact Ht].
+    apply from_log_app; [exact Hfm|]. rewrite <- Hlo. exact Hf.
+Qed.
+
+(* at the level of maybe_send_append: a batched send rewrites one queued
+   MsgAppend for [to]; under the log invariant, if that message was a slice of
+   the current log it still is, with the current commit index *)
+Theorem maybe_send_append_batched_wf r to pr ae r' pr' :
+  LogInv (r_log r) -> sent_batched r to pr ae r' pr' ->
+  exists pre m post ents, r_msgs r = pre ++ m :: post /\ Forall (not_app_to to) pre /\
+    m_type m = MsgAppend /\ m_to m = to /\
+    r' = r <| r_msgs := pre ++ merged r m ents :: post |> /\
+    log_entries (r_log r) (next_idx pr) (Some (r_max_msg_size r)) = Ok (SOk ents) /\
+    m_commit (merged r m ents) = committed (r_log r) /\
+    (ents <> [] -> contiguous_from (m_index m + 1) (m_entries m) ->
+       next_idx pr = m_index m + 1 + N.of_nat (length (m_entries m)) /\
+       contiguous_from (m_index m + 1) (m_entries (merged r m ents))) /\
+    (app_wf (r_log r) m -> app_wf (r_log r) (merged r m ents)).
+Proof.
+  intros HL (_ & _ & _ & t & ents & msgs' & _ & He & _ & Hb & ->).
+  destruct (log_entries_spec _ _ _ _ HL He) as (Hc & Hf & _).
+  destruct (try_batching_contiguous _ _ _ _ _ _ _ _ Hb Hc Hf)
+    as (pre & m & post & A & B & C & D & F & _ & _ & G & K & W).
+  exists pre, m, post, ents. rewrite F. auto 12.
+Qed.
+
+(* ================================================================== *)
 (* 6. Heartbeats                                                        *)
 (* ================================================================== *)
 
